@@ -204,7 +204,7 @@ class Inliner:
             self._cur_fi = saved
         node = normalise(self.prj, fi, node)
         ast.fix_missing_locations(node)
-        if self.inlined[fi.qual]:
+        if self.inlined[fi.qual] or getattr(node, "_hoisted", False):
             _renumber(node, fi.module.rel)
         syn = FuncInfo(fi.module, node, fi.cls, fi.outer)
         syn.nested = dict(fi.nested)
@@ -707,4 +707,36 @@ def normalise(prj: Project, fi: FuncInfo, node):
             if n is node:
                 self.generic_visit(n)
             return n
-    return N().visit(node)
+    node = N().visit(node)
+    return _hoist_loop_iterables(node)
+
+
+def _hoist_loop_iterables(node):
+    """`for x in [comprehension]:` -> `_it = [comprehension]; for x in _it:` (same meaning; loops then iterate names)"""
+    counter = [0]
+    changed = [False]
+
+    def block(stmts):
+        out = []
+        for st in stmts:
+            for fld in ("body", "orelse", "finalbody"):
+                if hasattr(st, fld) and isinstance(getattr(st, fld), list) and not isinstance(st, (ast.FunctionDef, ast.ClassDef)):
+                    setattr(st, fld, block(getattr(st, fld)))
+            if isinstance(st, ast.Try):
+                for h in st.handlers:
+                    h.body = block(h.body)
+            if isinstance(st, ast.For):
+                it = st.iter
+                inner = it.args[0] if isinstance(it, ast.Call) and attr_chain(it.func) in ("list", "sorted", "tuple") and len(it.args) == 1 and not it.keywords else it
+                if isinstance(inner, (ast.ListComp, ast.GeneratorExp)):
+                    counter[0] += 1
+                    nm = f"_it__h{counter[0]}"
+                    asg = ast.copy_location(ast.Assign(targets=[ast.Name(id=nm, ctx=ast.Store())], value=it), st)
+                    st.iter = ast.copy_location(ast.Name(id=nm, ctx=ast.Load()), it)
+                    out.append(asg)
+                    changed[0] = True
+            out.append(st)
+        return out
+    node.body = block(node.body)
+    node._hoisted = changed[0]
+    return node
